@@ -1,5 +1,6 @@
 import OdcGeo.Model.C05
 import OdcGeo.Drv.C05Opts
+import OdcGeo.Model.C05Meta
 namespace OdcGeo.C05.Drv
 open OdcGeo OdcGeo.IO OdcGeo.C05
 
@@ -95,6 +96,11 @@ def run (args : List String) : Option String :=
   | ["cogpre", sh, g, bs] => do
     let sh ← parseList? parseNat? sh; let g ← parseGbox? g; let bs ← parseList? parseBlk? bs
     pure (fmtRes fmtCog (makeEmptyCogPreFix sh g bs))
+  | ["pyr", sh, g, bs] => do
+    let sh ← parseList? parseNat? sh; let g ← parseGbox? g; let bs ← parseList? parseBlk? bs
+    pure (fmtRes (fun c => "|".intercalate ((pyramidPlan c.levels).map fun st =>
+      s!"{st.src}>{st.dst.shape.y},{st.dst.shape.x},{min st.chunks.y st.dst.shape.y},{min st.chunks.x st.dst.shape.x}," ++ fmtOpt fmtAff st.dst.aff))
+      (makeEmptyCog sh g bs))
   | ["cogdef", sh, g, cy, cx] => do
     let sh ← parseList? parseNat? sh; let g ← parseGbox? g
     let cy ← parseNat? cy; let cx ← parseNat? cx
